@@ -125,3 +125,23 @@ Proof.
 Qed.
 
 End Rest.
+
+(* the node's Before / After spacing is applied at the node (for an identifier: when it carries no
+   path) *)
+Definition case_body (l : list rstmt) : list rstmt := match l with RIdentHook :: r => r | _ => l end.
+Definition has_hook (l : list rstmt) : bool := match l with RIdentHook :: _ => true | _ => false end.
+
+Lemma space_action tbl t after l :
+  lookup tbl (tkind t) = Some l ->
+  existsb (fun s => match s with RSpace a => Bool.eqb a after | _ => false end) (case_body l) = true ->
+  (has_hook l = true -> ident_path_uid t = 0%N) ->
+  In (ASpace (is_bad_kind (tkind t)) after (if after then tafter t else tbefore t)) (flatten tbl false (fun _ => None) t).
+Proof.
+  intros E H Hh. unfold flatten. rewrite (rt_acts_build tbl false (fun _ => None) t). unfold node_acts, tbl_parts. rewrite E.
+  assert (Hin : forall l0, existsb (fun s => match s with RSpace a => Bool.eqb a after | _ => false end) l0 = true ->
+                  In (ASpace (is_bad_kind (tkind t)) after (if after then tafter t else tbefore t)) (stmts_acts t (rkids tbl false (fun _ => None) t) l0)).
+  { intros l0 Hl. apply existsb_exists in Hl. destruct Hl as [s [Hs Hm]]. destruct s; try discriminate.
+    apply Bool.eqb_prop in Hm. subst. unfold stmts_acts. apply in_flat_map. eexists. split; [exact Hs|]. cbn [stmt_acts]. left. reflexivity. }
+  destruct l as [|s0 r]; [discriminate|]. destruct s0; try (right; apply Hin; exact H).
+  cbn [case_body has_hook] in H, Hh. rewrite (Hh eq_refl). cbn [N.eqb]. right. apply Hin. exact H.
+Qed.
